@@ -55,6 +55,15 @@ def reg(pid, **kw):
     P[pid] = d
 
 
+NT_DESC = {
+    "nt_pages": "the final index holds at least 4 pages",
+    "nt_links": "the final index holds at least 3 distinct links, one of them with weight > 1",
+    "nt_we": "the final index has nested webentity prefixes or at least 3 webentities",
+    "nt_long": "some stem longer than one block (74 bytes) was written",
+    "<lambda>": "at least 6 generator steps were scheduled",
+}
+
+
 def nt_pages(tr):
     o = tr["steps"][-1]["obs"] if tr["steps"] else None
     return bool(o) and len(o["pages"]) >= 4
@@ -328,7 +337,7 @@ def finish(pid, cfg, tier, seed, t0, mcs, traces, gstats, val, viol, hits, drift
         "rule": "histories are drawn online by harness/gen.py over small universes of real byte LRUs "
                 "(shared prefixes, BST siblings, scheme/www variations, long and raw-byte stems); "
                 "distinct = distinct (backend, config, request sequence); non-trivial per property: "
-                + (nt.__name__ if hasattr(nt, "__name__") else "default"),
+                + NT_DESC.get(getattr(nt, "__name__", ""), "the history has more than 3 requests"),
         "samples": [sample_of(tr) for tr in traces[:2]],
         "generation": gstats,
         "clause_prefixes": cfg["prefixes"],
